@@ -642,14 +642,17 @@ package database
 //@   requires mdbWF(mdb)
 //@   modifies anything
 //@   ensures[C05.monitored-one-search] calls("(*database.CachedDatabase).SearchWithOptionsAndCache") == 1 && calls("(*cache.SearchCache).Get") == 1
+//@   ensures[C18.search-recorded-once] calls("(*metrics.PerformanceMonitor).RecordSearchOperation") == 1
 //@ func (*MonitoredDatabase).SearchWithMonitoring
 //@   requires mdbWF(mdb)
 //@   modifies anything
 //@   ensures[C05.monitored-one-search-simple] calls("(*database.CachedDatabase).SearchWithOptionsAndCache") == 1 && calls("(*cache.SearchCache).Get") == 1
+//@   ensures[C18.search-recorded-once-simple] calls("(*metrics.PerformanceMonitor).RecordSearchOperation") == 1
 //@ func (*MonitoredDatabase).LoadDatabaseWithMonitoring
 //@   requires mdb.CachedDatabase != nil && cacheWF(mdb.CachedDatabase) && (mdb.CachedDatabase.Database.embeddingIndex != nil ==> embedding.wfEmb(mdb.CachedDatabase.Database.embeddingIndex)) && mdb.monitor != nil && metrics.collectorWF(mdb.monitor.collector)
 //@   modifies anything
 //@   ensures[C05.monitored-update] calls("(*database.CachedDatabase).UpdateDatabase") == 1 && result == nil
+//@   ensures[C18.load-recorded-once] calls("(*metrics.PerformanceMonitor).RecordDatabaseOperation") == 1
 
 // ---------------------------------------------------------------------------
 // C11: concurrent searches on one loaded database. With the index already built for the current
